@@ -1356,6 +1356,15 @@ def run(ctx):
         ncols = rng.choice([1, 2, 2, 3, rng.randint(1, S)])
         n = nrows * ncols
         fd = rand_grid(rng, nrows, ncols)
+        # invalid codes that a narrower integer type, a mask or a table lookup would take for a valid one:
+        # a valid code (or the sink) plus a multiple of 2^8 / 2^16 / 2^32, and the neighbours of the codes
+        alias = rng.random() < 0.15
+        if alias:
+            fd = list(fd)
+            for _ in range(rng.randint(1, max(1, n // 3))):
+                off = rng.choice([256, 512, -256, 1 << 16, -(1 << 16), 1 << 32, -(1 << 32), 1 << 40, 0])
+                fd[rng.randrange(n)] = (rng.choice(CODES + [0]) + off) if off else \
+                    rng.choice([-1, 3, 5, 127, 129, 255, 256, 2 ** 31, -2 ** 31, 2 ** 62])
         # outlets: prefer cells with many upstream cells
         outlets = good_outlets(rng, fd, nrows, ncols)
         inlet_sets = [None, tuple(rng.sample(range(n), min(n, rng.randint(1, 3))))]
@@ -1363,7 +1372,7 @@ def run(ctx):
         ups = sorted(o_area(fd, nrows, ncols, outlets[0], [])[0]) if rng.random() < 0.7 else None
         inlet_sets.append(tuple(inlet_seq(rng, n, pool=ups, kmax=4, p_repeat=0.6)))
         nvals = [n + 2, rng.choice([1, 2, 3, max(2, n // 2), n, n + 1])]
-        do_grid(nrows, ncols, fd, outlets, inlet_sets, nvals, full=(it % 3 == 0))
+        do_grid(nrows, ncols, fd, outlets, inlet_sets, nvals, full=(it % 3 == 0), dtypes=not alias)
         # rivers
         for _ in range(2):
             start = rng.randrange(n)
